@@ -8,6 +8,11 @@ sys.path.insert(0, os.path.dirname(__file__))
 from common import *
 
 THREADS = [1, 2, 4, 8, 16]
+# qualifiers that always separate keys: sparse back-end, kind of operand aliasing
+KEY_CLASSES = ('cs', 'eigen', 'alias-this', 'alias-xy')
+def key_class(q):
+    # the receiver used as an operand dominates (R.op(&R, &R) is keyed as alias-this)
+    return tuple(x for x in q if x in KEY_CLASSES and not (x == 'alias-xy' and 'alias-this' in q))
 MALLOC_DEBUG = '/lib/x86_64-linux-gnu/libc_malloc_debug.so.0'
 OPNAME = {1: 'getValue', 2: 'setValue', 3: 'getRow', 4: 'getColumn', 5: 'setRow', 6: 'setColumn', 7: 'getDiagonal', 8: 'setDiagonal',
           9: 'transposeInPlace', 90: 'transpose', 10: 'addScalar', 11: 'prodScalar', 12: 'multiplyRow', 13: 'multiplyColumn',
@@ -321,6 +326,125 @@ def solve_cases(rng, n):
         add(10, [Lo.sx(), V(x)], 'V', k * k); add(11, [Lo.sx(), V(x)], 'V', k * k)
     return out
 
+
+# ----------------------------------------------------------------------------- sessions (re-used receivers, aliased operands)
+def mat_copy(m): return Mat(m.nr, m.nc, lambda i, j: m.a[i][j])
+def mat_lin(c1, a, c2, b): return Mat(a.nr, a.nc, lambda i, j: c1 * a.a[i][j] + c2 * b.a[i][j])
+def mat_diag(v): return Mat(len(v), len(v), lambda i, j: v[i] if i == j else 0)
+
+def session_cases(rng, nsess, fam):
+    """fam 0: dense classes, 1: MatrixSparse(csparse), 2: MatrixSparse(Eigen).
+    Returns (sessions, steps): one harness case per session, one model case per step. The model case carries the exact
+    current VALUES of the receiver and of the operands (tracked here with Fractions): the model is a pure function of the
+    argument values (C11_inplace_overwrites, C11_alias_agnostic), so aliasing and history only exist on the impl side."""
+    sessions, steps = [], []
+    ops_dense = [22, 22, 22, 220, 23, 24, 16, 17, 9, 10, 11, 12, 13]
+    ops_sparse = [22, 22, 220, 23, 16, 9, 11, 12, 13]
+    for sid in range(nsess):
+        n = rng.randint(1, 4); m = rng.randint(1, 4)
+        if m == n and rng.random() < .7: m = n % 4 + 1
+        shapes = [(n, m), (n, m), (m, n), (n, n), (m, m), (n, n)]
+        pool = []
+        for (r, c) in shapes:
+            st = 0 if (fam or r != c or rng.random() < .5) else 1
+            pool.append(dict(st=st, M=rnd_mat(rng, r, c, zero_p=.1 if fam == 0 else .3)))
+        pool_sx = [[e['st'], e['M'].sx()] for e in pool] if fam == 0 else [sparse_sx(rng, e['M'], 'plain')[0] for e in pool]
+        step_sx = []; nst = rng.randint(1, 4)
+        for k in range(nst):
+            cands = []
+            for op in (ops_dense if fam == 0 else ops_sparse):
+                for r in range(len(pool)):
+                    R = pool[r]['M']
+                    if op == 22:
+                        for ix in range(len(pool)):
+                            for iy in range(len(pool)):
+                                for tx in (0, 1):
+                                    for ty in (0, 1):
+                                        X = pool[ix]['M']; Y = pool[iy]['M']
+                                        xr, xc = (X.nc, X.nr) if tx else (X.nr, X.nc); yr, yc = (Y.nc, Y.nr) if ty else (Y.nr, Y.nc)
+                                        if xc == yr and (R.nr, R.nc) == (xr, yc): cands.append((op, r, ix, iy, tx, ty))
+                    elif op == 220:
+                        for iy in range(len(pool)):
+                            for ty in (0, 1):
+                                Y = pool[iy]['M']; yr, yc = (Y.nc, Y.nr) if ty else (Y.nr, Y.nc)
+                                if R.nc == yr and yc == R.nc: cands.append((op, r, r, iy, 0, ty))
+                    elif op == 23:
+                        for ix in range(len(pool)):
+                            for iy in range(len(pool)):
+                                if r in (ix, iy): continue     # documented: 'a' and 'm' may NOT coincide with 'this'
+                                for t in (0, 1):
+                                    A = pool[ix]['M']; Mm = pool[iy]['M']
+                                    n1, n2 = (A.nc, A.nr) if t else (A.nr, A.nc)
+                                    if Mm.nr == n2 == Mm.nc and R.nr == n1 == R.nc: cands.append((op, r, ix, iy, t, 0))
+                    elif op == 24:
+                        for ix in range(len(pool)):
+                            if ix == r: continue
+                            for t in (0, 1):
+                                A = pool[ix]['M']; n1 = A.nc if t else A.nr
+                                if R.nr == n1 == R.nc: cands.append((op, r, ix, ix, t, 0))
+                    elif op in (16, 17):
+                        for ix in range(len(pool)):
+                            for iy in (range(len(pool)) if op == 17 else [ix]):
+                                if (pool[ix]['M'].nr, pool[ix]['M'].nc) == (R.nr, R.nc) == (pool[iy]['M'].nr, pool[iy]['M'].nc):
+                                    cands.append((op, r, ix, iy, 0, 0))
+                    else:
+                        if op == 9 and fam == 0 and pool[r]['st'] != 0 and R.nr != R.nc: continue
+                        cands.append((op, r, r, r, 0, 0))
+            if not cands: break
+            # half of the steps use an aliased call when one exists
+            al = [x for x in cands if x[0] in (22, 220, 23, 16, 17) and (x[2] == x[3] or x[1] in (x[2], x[3]))]
+            op, r, ix, iy, tx, ty = rng.choice(al) if (al and rng.random() < .6) else rng.choice(cands)
+            gen = 1 if (fam == 0 and op in (22, 220, 23, 24, 16, 10, 11, 12, 13) and rng.random() < .3) else 0
+            R = pool[r]['M']; X = pool[ix]['M']; Y = pool[iy]['M']
+            v = []; c1 = Fraction(rng.choice([1, 2, -1, 3])); c2 = Fraction(rng.choice([1, -1, 2]))
+            quals = []
+            recv_sx = (lambda M: M.sx()) if fam == 0 else (lambda M: sparse_sx(rng, M, 'plain')[0])
+            if op in (22, 220):
+                Xv = R if op == 220 else X
+                new = (Xv.T() if tx else Xv).mul(Y.T() if ty else Y)
+                margs = [recv_sx(Xv), recv_sx(Y), tx, ty]; mop = 22; quals.append('tx%dty%d' % (tx, ty))
+                if op == 220 or r in (ix, iy):
+                    quals.append('alias-this')
+                    if fam == 0:      # the dense model knows which operand is the receiver (noalias / overwritten reads)
+                        mop = 221; margs += [1 if (op == 220 or ix == r) else 0, 1 if (op == 22 and iy == r) else 0]
+                if op == 22 and ix == iy: quals.append('alias-xy')
+            elif op == 23:
+                A = X.T() if tx else X; new = A.mul(Y).mul(A.T()); margs = [recv_sx(X), recv_sx(Y), tx]; mop = 23
+                if tx: quals.append('transpose')
+                if ix == iy: quals.append('alias-xy')
+            elif op == 24:
+                n2 = X.nr if tx else X.nc; v = rnd_vec(rng, n2, nonzero=True) if rng.random() < .6 else []
+                A = X.T() if tx else X; new = A.mul(mat_diag(v) if v else mat_diag([Fraction(1)] * n2)).mul(A.T())
+                margs = [recv_sx(X), V(v), tx]; mop = 24; quals += (['transpose'] if tx else []) + (['vec'] if v else ['novec'])
+            elif op == 16:
+                new = mat_lin(c1, R, c2, X); margs = [recv_sx(X), dy(c1), dy(c2)]; mop = 16
+                if ix == r: quals.append('alias-this')
+            elif op == 17:
+                new = mat_lin(c1, X, c2, Y); margs = [dy(c1), recv_sx(X), dy(c2), recv_sx(Y), dy(1), []]; mop = 17
+                if r in (ix, iy): quals.append('alias-this')
+                if ix == iy: quals.append('alias-xy')
+            elif op == 9: new = R.T(); margs = []; mop = 9
+            elif op == 10: new = Mat(R.nr, R.nc, lambda i, j: R.a[i][j] + c1); margs = [dy(c1)]; mop = 10
+            elif op == 11: new = Mat(R.nr, R.nc, lambda i, j: R.a[i][j] * c1); margs = [dy(c1)]; mop = 11
+            elif op == 12: v = rnd_vec(rng, R.nr, nonzero=True); new = Mat(R.nr, R.nc, lambda i, j: R.a[i][j] * v[i]); margs = [V(v)]; mop = 12
+            else: v = rnd_vec(rng, R.nc, nonzero=True); new = Mat(R.nr, R.nc, lambda i, j: R.a[i][j] * v[j]); margs = [V(v)]; mop = 13
+            if k > 0: quals.append('reused-receiver')
+            quals.append(shape_class(R.nr, R.nc))
+            if fam == 0:
+                mcase = [1, 1, pool[r]['st'], gen, mop, R.sx()] + margs
+                site = ('AMatrix' if (gen or mop == 17) else 'AMatrixDense') + '::' + OPNAME[22 if mop == 221 else mop]
+                kind = 'dense'; stv = pool[r]['st']
+            else:
+                mcase = [2, 1, fam - 1, mop, recv_sx(R)] + margs
+                site = 'MatrixSparse::' + OPNAME[mop]; quals = ['eigen' if fam == 2 else 'cs'] + quals
+                kind = 'sparse'; stv = 2 + fam
+            steps.append(dict(case=mcase, rtype='M', site=site, quals=quals, size=R.nr * R.nc + 100 * k, kind=kind, op=(22 if mop == 221 else mop), st=stv,
+                              session=(fam, sid, k), expected=new))
+            step_sx.append([op, gen, r, ix, iy, tx, ty, V(v), dy(c1), dy(c2)])
+            pool[r]['M'] = new
+        sessions.append(dict(case=[7, 1, fam, pool_sx, step_sx], fam=fam, sid=sid, nsteps=len(step_sx)))
+    return sessions, steps
+
 # ----------------------------------------------------------------------------- decoding of results
 def dec(res, rtype, num):
     """canonical python value of a result; num = undy (impl) or unq (model/spec)"""
@@ -488,8 +612,12 @@ def run(ctx):
     gens += sparse_cases(rng, 8 if quick else 90)
     gens += vec_cases(rng, 40 if quick else 500)
     gens += solve_cases(rng, 25 if quick else 300)
+    sessions = []
+    for fam in (0, 1, 2):
+        ss, st = session_cases(rng, (60 if fam == 0 else 25) if quick else (700 if fam == 0 else 250), fam)
+        sessions += ss; gens += st
     gens = corpus + gens
-    ctx.log('generated %d model cases (+%d corpus)' % (len(gens) - len(corpus), len(corpus)))
+    ctx.log('generated %d model cases (+%d corpus), %d sessions' % (len(gens) - len(corpus), len(corpus), len(sessions)))
 
     # model + spec once per case; impl once per thread count for matrix cases
     cf = write_cases(ctx, 'main', [g['case'] for g in gens])
@@ -498,13 +626,25 @@ def run(ctx):
         print('ERROR: model runner returned %d results for %d cases' % (len(model), len(gens))); sys.exit(3)
     impl_by_t = {}
     for nth in THREADS:
-        idx = [k for k, g in enumerate(gens) if nth == 1 or g['kind'] in ('dense', 'sparse', 'solve')]
+        idx = [k for k, g in enumerate(gens) if 'session' not in g and (nth == 1 or g['kind'] in ('dense', 'sparse', 'solve'))]
         if nth > 1 and quick: idx = [k for k in idx if k % 2 == nth % 2 or gens[k]['op'] in (22, 23, 24, 20, 21)]
         cft = write_cases(ctx, 't%d' % nth, [with_threads(gens[k]['case'], nth) if gens[k]['kind'] != 'vec' else gens[k]['case'] for k in idx])
         # single-thread run under glibc's heap checker: an overflow of a malloc'ed block aborts at the next free()
         env = {'LD_PRELOAD': MALLOC_DEBUG, 'MALLOC_CHECK_': '3'} if (nth == 1 and os.path.exists(MALLOC_DEBUG)) else None
         rc_i, impl = run_impl(ctx, exe, cft, timeout=3000, env=env)
         impl_by_t[nth] = {k: (impl[p] if p < len(impl) else None) for p, k in enumerate(idx)}
+        # sessions: one harness case per session; its step results are attached to the per-step model cases
+        if nth == 1 or not quick or nth == 4:
+            cfs = write_cases(ctx, 's%d' % nth, [with_threads(x['case'], nth) for x in sessions])
+            rc_s, simpl = run_impl(ctx, exe, cfs, timeout=3000, env=env)
+            sres = {}
+            for p, x in enumerate(sessions):
+                r = simpl[p] if p < len(simpl) else None
+                sres[(x['fam'], x['sid'])] = (r[1:] if (r and r[0] == 0) else [])
+            for k, g in enumerate(gens):
+                if 'session' in g:
+                    fam, sid, stp = g['session']; rs = sres.get((fam, sid), [])
+                    impl_by_t[nth][k] = rs[stp] if stp < len(rs) else [-996, 0]
     ctx.log('impl and model evaluated')
 
     failing = {}      # key -> (size, text, replay)
@@ -513,8 +653,11 @@ def run(ctx):
     site_pass = {}    # site -> list of quals of passing cases
     found_input = False
     nundef = 0
+    broken_sessions = set()
+    sess_by_id = {(x['fam'], x['sid']): x['case'] for x in sessions}
     for k, g in enumerate(gens):
         mo = model[k]
+        if 'session' in g and g['session'][:2] in broken_sessions: continue     # the pool state is unknown after a wrong step
         if mo and mo[0] in (-999, -998):
             print('ERROR: model rejected case %d: %s -> %r' % (k, sx_str(g['case'])[:200], mo)); sys.exit(3)
         m = dec(mo[0], g['rtype'], unq)
@@ -523,9 +666,15 @@ def run(ctx):
         else:
             s = dec(mo[1], g['rtype'], unq)
         i1 = dec(impl_by_t[1].get(k), g['rtype'], undy)
+        if 'session' in g:
+            e = g['expected']; ev = ('M', e.nr, e.nc, e.colmajor())
+            if not same(s, ev, 0):
+                print('ERROR: the session generator and the Coq spec disagree on %s' % sx_str(g['case'])[:300]); sys.exit(3)
+            if not same(i1, ev): broken_sessions.add(g['session'][:2])
         if g['site'] == 'VectorNumT::norm' and i1[0] == 'Q' and i1[1] is not None: i1 = ('Q', i1[1] * i1[1])
         site = g['site']; quals = ':'.join(g['quals'])
         key = site + (':' + quals if quals else '')
+        dkey = site + ''.join(':' + x for x in key_class(g['quals']))     # drift keys: call site + back-end / alias class
         ctx.dist(site); ctx.dist('storage_' + (STNAME.get(g['st'], {3: 'MatrixSparse(cs)', 4: 'MatrixSparse(eigen)'}.get(g['st'], 'vector'))))
         nontrivial = s[0] not in ('UNDEF', 'VOID')
         ctx.count(sx_str(g['case']), nontrivial)
@@ -536,6 +685,9 @@ def run(ctx):
         if i1[0] == 'HARNESS':
             print('ERROR: harness could not run case %s' % sx_str(g['case'])[:200]); sys.exit(3)
         replay = {'case': sx_str(g['case']), 'impl': show(i1), 'model': show(m), 'spec': show(s),
+                  **({'session_case': sx_str(sess_by_id[g['session'][:2]]), 'failing_step': g['session'][2],
+                      'note': 'run the session_case line with the harness: the receiver printed after step failing_step differs; '
+                              '"case" is the same call on copies of the current values (what the model sees)'} if 'session' in g else {}),
                   'how': 'build/harness/C11 <file with the case line> out.txt ; build/ocaml/C11/runner <same file>'}
         if s[0] == 'CERT':
             # model result must satisfy its certificate (else the model itself is wrong) and impl must equal the model
@@ -547,16 +699,16 @@ def run(ctx):
         elif s[0] in ('UNDEF',):
             nundef += 1
             if not (m[0] == 'UB' or model_matches_impl(m, i1)):
-                if g['size'] < drift.get('model-drift:' + key, (1 << 60,))[0]:
-                    drift['model-drift:' + key] = (g['size'], '%s outside the mathematical domain: impl %s, model %s' % (site, show(i1), show(m)), replay)
+                if g['size'] < drift.get('model-drift:' + dkey, (1 << 60,))[0]:
+                    drift['model-drift:' + dkey] = (g['size'], '%s outside the mathematical domain: impl %s, model %s' % (site, show(i1), show(m)), replay)
         else:
             if same(i1, s):
                 if m[0] == 'UB':
                     # the model predicts a contract violation / out-of-bounds access that stayed silent on this run
                     ctx.cov.setdefault('ub_predicted_silent', {}); ctx.cov['ub_predicted_silent'][key] = ctx.cov['ub_predicted_silent'].get(key, 0) + 1
                 if not (m[0] == 'UB' or same(m, i1)):
-                    if g['size'] < drift.get('model-drift:' + key, (1 << 60,))[0]:
-                        drift['model-drift:' + key] = (g['size'], '%s: impl agrees with the mathematical result but the model returns %s' % (site, show(m)), replay)
+                    if g['size'] < drift.get('model-drift:' + dkey, (1 << 60,))[0]:
+                        drift['model-drift:' + dkey] = (g['size'], '%s: impl agrees with the mathematical result but the model returns %s' % (site, show(m)), replay)
             else:
                 site_fail.setdefault(site, []).append((g['quals'], g['size'], '%s: impl gives %s, linear algebra defines %s (model of the code predicts %s)' % (site, show(i1), show(s), show(m)), replay))
                 continue
@@ -577,12 +729,12 @@ def run(ctx):
     for site, fl in site_fail.items():
         groups = {}
         for q, size, text, replay in fl:
-            be = tuple(x for x in q if x in ('cs', 'eigen'))
+            be = key_class(q)
             groups.setdefault(be, []).append((q, size, text, replay))
         for be, items in groups.items():
             common = set(items[0][0])
             for q, _, _, _ in items: common &= set(q)
-            passing = [set(q) for q in site_pass.get(site, []) if tuple(x for x in q if x in ('cs', 'eigen')) == be]
+            passing = [set(q) for q in site_pass.get(site, []) if key_class(q) == be]
             kept = [x for x in items[0][0] if x in common and x != 'square' and (x in be or any(x not in pq for pq in passing))]
             if 'duplicate-entries' in kept: kept = [x for x in kept if x != 'nonsquare']
             key = site + (':' + ':'.join(kept) if kept else '')
